@@ -56,7 +56,7 @@ def replay(d):
         else:
             for b, r in zip(d['blocks'], inc2):
                 if r.block != held(b['name']): problems.append('name %r -> %r' % (b['name'], r.block))
-                exp = [float('%20.13e' % v) for v in num(b['variables'])]
+                exp = [None if v is None else float('%20.13e' % v) for v in num(b['variables'])]
                 if list(r.variable) != exp: problems.append('variables %r -> %r' % (exp, r.variable))
                 if b['porosity'] is None:
                     if r.porosity is not None: problems.append('porosity appeared')
